@@ -11,13 +11,19 @@ MANIFEST = dict(
     text=("Lean: the editing calls are mirrored on the pointer heap (Model/Heap.lean) and their effect on the forest "
           "(children lists / parent) is proved against the list-of-lists specification: extract removes exactly the element from "
           "its parent's list and detaches it with its subtree intact, _insert places the element at the clamped slot (with the "
-          "same-parent index correction), nothing else moves, no element is duplicated or lost (see evidence 'theorems'). "
+          "same-parent index correction), nothing else moves, no element is duplicated or lost; the further calls are derived from the two "
+          "(append/extend/insert_before/insert_after/replace_with/wrap/unwrap/clear/.string=), smooth() is proved to turn every maximal run "
+          "of adjacent plain strings among the children of every tag of the subtree into one new string, the concatenation, leaving every "
+          "other child the same object in the same place (squash/squashId) and never to fail, decompose() / clear(decompose=True) to destroy "
+          "exactly the subtree (see evidence 'theorems'). "
           "Tie: after every call of generated histories and of the exhaustive small-scope enumeration (thorough), the real "
           ".contents nesting is compared by identity with an independent Python list-of-lists model of the documented effect and "
-          "with the Lean model."),
+          "with the Lean model; for smooth() the children of every tag of the subtree, by identity and text, are compared with the Lean "
+          "specification function squashId on trees with runs of strings (empty strings, NavigableString subclasses, Comment/CData between them)."),
     design="7/C02",
-    note=("Negative positions are outside the modelled domain (DESIGN.md C02). Calls that would put an element beneath itself are "
-          "outside the quantifier."),
+    note=("Positions are any Python integers (negative ones read as list.insert does, Model/Heap.lean normPos). Calls that would put an "
+          "element beneath itself are outside the quantifier. Repeated arguments inside one multi-argument call are carried by the "
+          "differential check against the independent Python spec only."),
     technique="Lean 4 refinement proof (pointer procedures vs list-of-lists forest) + per-call differential correspondence with an independent spec",
 )
 
@@ -52,6 +58,27 @@ def cycle_attempt(op, before):
     return any(a in anc for a in args)
 
 
+def doomed_by(w, op):
+    """the elements `decompose()` / `clear(decompose=True)` is documented to destroy: the subtree of the element / of each child"""
+    if op[:3] not in ("de:", "cd:") or op.split(":")[1] not in w.objs:
+        return None
+    tgt = w.objs[op.split(":")[1]]
+    return heapsim.subtree(tgt) if op[:3] == "de:" else [x for c in getattr(tgt, "contents", []) for x in heapsim.subtree(c)]
+
+
+def destroyed_wrong(w, doomed, dead_ids):
+    """after the call: exactly the doomed elements (and those destroyed earlier) report `.decomposed`; a destroyed Tag has no children"""
+    from bs4.element import Tag
+    dead_ids.update(id(x) for x in doomed)
+    wrong = next((o for o in w.keep if bool(o.decomposed) != (id(o) in dead_ids)), None)
+    if wrong is None:
+        wrong = next((o for o in doomed if isinstance(o, Tag) and o.contents), None)
+    if wrong is None:
+        return None
+    return ("was destroyed although it is not beneath the element" if wrong.decomposed and id(wrong) not in dead_ids else
+            "is beneath the element but was not destroyed" if not wrong.decomposed else "was destroyed but still has children")
+
+
 def run_history(ctx, rng, steps, stream, ops_fixed=None, kinds_fixed=None, parsed=None):
     if kinds_fixed is None:
         parsed = rng.random() < 0.4
@@ -62,6 +89,7 @@ def run_history(ctx, rng, steps, stream, ops_fixed=None, kinds_fixed=None, parse
     for op in prefix:
         spec.apply(op)
     stats = Counter()
+    dead_ids = set()
     ops = list(prefix)
     outcomes = [None] * len(prefix)
     shapes = [None] * len(prefix)
@@ -76,7 +104,18 @@ def run_history(ctx, rng, steps, stream, ops_fixed=None, kinds_fixed=None, parse
             break
         ops.append(op)
         before = shape_of_world(w)
+        # decompose() / clear(decompose=True): exactly the elements of the subtree (of the element / of each child) are destroyed - the
+        # documented observable is `.decomposed` - and a destroyed Tag has no children (Props/C02 decompose_effect, clear_decompose_effect)
+        doomed = doomed_by(w, op)
         st = w.apply(op)
+        if doomed is not None and st == "ok":
+            ctx.count("decompose:destroyed-elements", len(doomed))
+            what = destroyed_wrong(w, doomed, dead_ids)
+            if what:
+                ctx.violation(f"{op}: an element {what} (destroyed {len(doomed)} expected)",
+                              case={"kinds": kinds, "ops": ops, "parsed": bool(parsed), "before": before, "twin": getattr(w, "twin_choices", None)},
+                              expected=f"{len(doomed)} destroyed", observed=what, stream=stream)
+                break
         ctx.count("op:" + op.split(":")[0])
         ctx.count("outcome:" + st)
         outcomes.append(st)
@@ -148,6 +187,242 @@ def compare_model(ctx, reply, outcomes, shapes, case, stream):
                 return
 
 
+# --------------------------------------------------------------------------------------------
+# smooth(): the real children after the call vs the documented effect (`squash` / `squashId` of Model/HeapSmooth.lean)
+# --------------------------------------------------------------------------------------------
+_SMOOTH_TEXTS = ["", "", "a", "b", "ab", " ", "\n", "x y", "\u00e9", "\U0001f600", "<", "&amp;", "0"]
+
+
+class _UserString(__import__("bs4").element.NavigableString):
+    """a user-defined NavigableString subclass that is not Preformatted: merged like any plain string"""
+
+
+def _smooth_case(rng):
+    """A random forest of real objects with runs of strings. Returns (nodes, kinds, vals, edges, target id, other, stats, classes);
+    nodes[i] = the object with model id i (creation order); edges in the order of the `append` calls."""
+    from bs4 import BeautifulSoup
+    from bs4.element import (NavigableString, Comment, CData, ProcessingInstruction, Declaration, Doctype, TemplateString, Script,
+                             Stylesheet, RubyTextString, RubyParenthesisString)
+    base = BeautifulSoup("", "html.parser")
+    nodes, kinds, vals, edges, classes = [], [], [], [], []
+    stats = Counter()
+
+    def add(kind, obj, text=None, cls=None):
+        nodes.append(obj)
+        kinds.append(kind)
+        classes.append(cls or type(obj).__name__)
+        vals.append("-" if not text else ".".join(str(ord(c)) for c in text))
+        return len(nodes) - 1
+
+    plain_sub = [TemplateString, Script, Stylesheet, RubyTextString, RubyParenthesisString, _UserString]
+    pre_cls = [Comment, CData, ProcessingInstruction, Declaration, Doctype]
+
+    def new_leaf():
+        r = rng.random()
+        text = rng.choice(_SMOOTH_TEXTS) if rng.random() < 0.8 else "".join(rng.choice("abc \u00e9") for _ in range(rng.randint(0, 5)))
+        if r < 0.62:
+            if rng.random() < 0.15:
+                stats["leaf:from-str-subclass"] += 1
+                return add("s", NavigableString(heapsim._StrSub(text)), text, "NavigableString/_StrSub")
+            return add("s", NavigableString(text), text)
+        if r < 0.78:
+            stats["leaf:plain-subclass"] += 1
+            return add("s", rng.choice(plain_sub)(text), text)
+        stats["leaf:preformatted"] += 1
+        return add("c", rng.choice(pre_cls)(text), text)
+
+    if rng.random() < 0.2:
+        root = add("r", BeautifulSoup("", "html.parser"))
+        stats["root:soup"] += 1
+    else:
+        root = add("t", base.new_tag("t0"))
+    tags = [root]
+    budget = rng.randint(1, 5)
+    todo = [root]
+    while todo:
+        t = todo.pop(0)
+        nkids = rng.choice([0, 1, 2, 3, 4, 5, 6, 8])
+        for _ in range(nkids):
+            if budget > 0 and rng.random() < 0.18:
+                budget -= 1
+                c = add("t", base.new_tag(f"t{len(nodes)}"))
+                tags.append(c)
+                todo.append(c)
+            else:
+                c = new_leaf()
+            nodes[t].append(nodes[c])
+            edges.append(f"{t}>{c}")
+    # a second, untouched tree: the frame ("nothing else moves") is observed on it
+    other = add("t", base.new_tag("other"))
+    for _ in range(rng.randint(0, 3)):
+        c = add("s", NavigableString("z"), "z")
+        nodes[other].append(nodes[c])
+        edges.append(f"{other}>{c}")
+    target = root if rng.random() < 0.6 else rng.choice(tags)
+    return nodes, kinds, vals, edges, target, other, stats, classes
+
+
+def _is_plain(o):
+    from bs4.element import NavigableString, PreformattedString
+    return isinstance(o, NavigableString) and not isinstance(o, PreformattedString)
+
+
+def _cps(o):
+    return ".".join(str(ord(c)) for c in str(o))
+
+
+def _smooth_observe(nodes, target, count=lambda k: None):
+    """Call `nodes[target].smooth()` and evaluate the documented effect directly on the real objects.
+    Returns (outcome, want, got, bad, nontrivial): want / got map the id of every tag of the subtree to its children after the call
+    as items `o<id>` (not a plain string), `s<id>:<text>` (a plain string that existed before: same object), `n:<text>` (new)."""
+    from bs4.element import NavigableString, Tag
+    ident = {id(o): k for k, o in enumerate(nodes)}
+    sub = [nodes[target]] + [d for d in nodes[target].descendants if isinstance(d, Tag)]
+    before = {ident[id(q)]: list(q.contents) for q in sub}
+    outside = {k: list(o.contents) for k, o in enumerate(nodes) if isinstance(o, Tag) and k not in before}
+    # direct oracle: every maximal run of >= 2 adjacent plain strings becomes one NEW plain string, the concatenation; every other
+    # child stays the same object, in order
+    want, merged_away, nontrivial = {}, [], False
+    for q, kids in before.items():
+        out, run = [], []
+
+        def flush():
+            nonlocal nontrivial
+            if len(run) >= 2:
+                out.append("n:" + ".".join(_cps(r) for r in run if str(r)))
+                merged_away.extend(run)
+                nontrivial = True
+                count("smooth:runs")
+                if len(run) >= 3:
+                    count("smooth:run>=3")
+                if any(str(r) == "" for r in run):
+                    count("smooth:run-with-empty-string")
+                if any(type(r) is not NavigableString for r in run):
+                    count("smooth:run-with-subclass")
+            else:
+                out.extend(f"s{ident[id(r)]}:{_cps(r)}" for r in run)
+            run.clear()
+        for c in kids:
+            if _is_plain(c):
+                run.append(c)
+            else:
+                if run and not isinstance(c, Tag):
+                    count("smooth:preformatted-next-to-string")
+                flush()
+                out.append(f"o{ident[id(c)]}")
+        flush()
+        want[q] = ",".join(out) if out else "-"
+    if len(before) > 1:
+        count("smooth:nested-tags")
+    try:
+        nodes[target].smooth()
+        outcome = "ok"
+    except Exception as e:          # noqa: BLE001 - any exception is an outcome the model must share
+        outcome = "err:" + type(e).__name__
+    got = {}
+    if outcome == "ok":
+        for q in before:
+            items = []
+            for c in nodes[q].contents:
+                k = ident.get(id(c))
+                if k is None:
+                    cls = "" if type(c) is NavigableString else "!" + type(c).__name__
+                    items.append(f"n{cls}:{_cps(c)}")
+                elif _is_plain(c):
+                    items.append(f"s{k}:{_cps(c)}")
+                else:
+                    items.append(f"o{k}")
+            got[q] = ",".join(items) if items else "-"
+    bad = None
+    if outcome != "ok":
+        bad = f"smooth() raised {outcome[4:]}"
+    else:
+        for q in before:
+            if got[q] != want[q]:
+                bad = f"children of node {q} after smooth() are {got[q]}; the documented effect gives {want[q]}"
+                break
+        if bad is None:
+            for k, kids in outside.items():
+                if not heapsim.same(nodes[k].contents, kids):
+                    bad = f"smooth() on node {target} changed the children of node {k}, which is not beneath it"
+                    break
+        if bad is None:
+            for r in merged_away:
+                if r.parent is not None:
+                    bad = f"the merged string {ident[id(r)]} still names a parent"
+                    break
+        if bad is None:
+            snap = {q: list(nodes[q].contents) for q in before}
+            nodes[target].smooth()
+            for q in before:
+                if not heapsim.same(nodes[q].contents, snap[q]):
+                    bad = f"a second smooth() changed the children of node {q} again"
+                    break
+    return outcome, want, got, bad, nontrivial
+
+
+def _smooth_rebuild(case):
+    """the real objects of a recorded smooth case (replay)"""
+    import bs4.element as E
+    from bs4 import BeautifulSoup
+    base = BeautifulSoup("", "html.parser")
+    nodes = []
+    vals = case["vals"].split(";")
+    for i, (k, cls) in enumerate(zip(case["kinds"], case["classes"])):
+        text = "" if vals[i] == "-" else "".join(chr(int(v)) for v in vals[i].split("."))
+        if k == "r":
+            nodes.append(BeautifulSoup("", "html.parser"))
+        elif k == "t":
+            nodes.append(base.new_tag(f"t{i}"))
+        elif cls == "_UserString":
+            nodes.append(_UserString(text))
+        elif cls == "NavigableString/_StrSub":
+            nodes.append(E.NavigableString(heapsim._StrSub(text)))
+        else:
+            nodes.append(getattr(E, cls)(text))
+    for e in (case["edges"].split(";") if case["edges"] else []):
+        p, c = e.split(">")
+        nodes[int(p)].append(nodes[int(c)])
+    return nodes
+
+
+def smooth_stream(ctx, drv):
+    n = ctx.n(400, 6000)
+    lines, cases = [], []
+    for i in range(n):
+        rng = ctx.rng("smooth", i)
+        nodes, kinds, vals, edges, target, other, stats, classes = _smooth_case(rng)
+        line = f"c01 smooth {''.join(kinds)} {';'.join(vals)} {';'.join(edges) if edges else '-'} {target}"
+        for k, v in stats.items():
+            ctx.count("smooth:" + k, v)
+        case = {"kinds": "".join(kinds), "vals": ";".join(vals), "edges": ";".join(edges), "target": target, "classes": classes,
+                "line": line}
+        outcome, want, got, bad, nontrivial = _smooth_observe(nodes, target, ctx.count)
+        ctx.case(("SM", i) if nontrivial else None, sample=case if i < 2 else None)
+        if bad:
+            ctx.violation("smooth: " + bad, case=case, expected=want, observed=got if outcome == "ok" else outcome, stream="smooth-squash")
+        lines.append(line)
+        cases.append((case, outcome, " ".join(f"{q}={v}" for q, v in got.items()), bool(bad)))
+        if len([v for v in ctx.violations if not v.get("no_failing_input_found")]) >= 8:
+            break
+    replies = drv.ask(lines)
+    for rep, (case, outcome, got, bad) in zip(replies, cases):
+        if bad:
+            continue
+        if outcome != "ok":
+            ok = rep == outcome
+            spec = impl = again = rep
+        else:
+            parts = rep[3:].split(" # ") if rep.startswith("ok ") else []
+            spec, impl, again = (parts + ["<missing>"] * 3)[:3]
+            ok = spec == got and impl == got and again == "1"
+        if not ok:
+            ctx.corr_disagreements += 1
+            ctx.violation(f"smooth: model and implementation disagree: impl {got or outcome}, model spec (squashId) {spec}, model code mirror {impl}, second call no-op {again}",
+                          case=case, observed=got or outcome, model=rep[:400], stream="smooth-squash", no_failing_input=True)
+    ctx.count("smooth:requests", len(lines))
+
+
 def small_scope(ctx):
     """Every single call of every form on every tree of <= 4 attached nodes (+2 fresh), all argument patterns of
     length <= 2 (thorough: <= 3 for insert/replace_with/insert_after)."""
@@ -185,7 +460,12 @@ def run(ctx: Ctx):
     ctx.rule = ("edit histories as in C01 (parsed and API starts, 15 call kinds (incl. clear(decompose=True) and the deprecated spellings replaceWith / replace_with_children / replaceWithChildren), multi-argument 40%, arguments from anywhere in the "
                 "forest) + exhaustive single calls over small trees (all argument tuples of length <= 2, thorough <= 3); after every "
                 "call the .contents nesting by identity vs the independent list-of-lists spec and vs the Lean model. non-trivial = "
-                "an argument came from the same parent / elsewhere in the forest / was a BeautifulSoup object / was repeated")
+                "an argument came from the same parent / elsewhere in the forest / was a BeautifulSoup object / was repeated. "
+                "smooth-squash stream: random trees with runs of strings (empty strings, NavigableString subclasses, Comment/CData/... between "
+                "them, nested tags, BeautifulSoup roots); the children of every tag of the subtree after smooth(), by identity and text, vs the "
+                "direct oracle (runs of >= 2 plain strings become one new string) and vs the Lean model's squashId (spec) and smooth (code mirror); "
+                "non-trivial = at least one run was merged. After every decompose() / clear(decompose=True) of the histories: exactly the elements of "
+                "the subtree report .decomposed, and a destroyed Tag has no children")
     ctx.assumptions = ["calls that would put an element beneath itself are never generated (outside the quantifier)",
                        "positions are any Python integers: negative ones count from the end as in list.insert (Model/Heap.lean normPos)"]
     drv = Driver()
@@ -212,6 +492,8 @@ def run(ctx: Ctx):
         if len([v for v in ctx.violations if not v.get("no_failing_input_found")]) >= 8:
             break
     flush()
+    # smooth(): real children vs the documented effect (Lean `squashId`) on trees with runs of strings
+    smooth_stream(ctx, drv)
     # exhaustive small scope
     kinds, cases = small_scope(ctx)
     if not ctx.thorough:
@@ -234,16 +516,35 @@ def run(ctx: Ctx):
 def replay(path):
     v = json.load(open(path))
     c = v["case"]
+    if "edges" in c and "classes" in c:
+        nodes = _smooth_rebuild(c)
+        outcome, want, got, bad, _ = _smooth_observe(nodes, c["target"])
+        print("smooth() on node", c["target"], "->", outcome)
+        print(" documented effect:", want)
+        print(" observed         :", got)
+        if bad:
+            print(f"property C02 violated: {bad}")
+            return 1
+        print("no violation of C02 on replay")
+        return 0
     if "kinds" not in c:
         print(json.dumps(v, indent=1)[:3000])
         return 1
     w = heapsim.World(c["kinds"], twin_choices=c.get("twin"))
     spec = heapsim.Spec(c["kinds"])
+    dead_ids = set()
     for i, op in enumerate(c["ops"]):
+        doomed = doomed_by(w, op)
         st = w.apply(op)
         if st != "ok":
             print(i, op, st)
             break
+        if doomed is not None:
+            what = destroyed_wrong(w, doomed, dead_ids)
+            if what:
+                print(i, op, st)
+                print(f"property C02 violated: after {op} an element {what}")
+                return 1
         spec.apply(op)
         got, want = shape_of_world(w), spec.shape()
         bad = [(l, k, want.get(l)) for l, k in got.items() if want.get(l) != k]
